@@ -141,6 +141,22 @@ def coreLine (w : World) (ws : List String) : Option (World × String) :=
        | .ok (c, j) =>
          let d := ({} : Disk).applyAll j
          some (w.set name { core := some c, disk := d, lastJournal := j, writer := name }, s!"ok j={jTxt j}"))
+  | ["recreate", name] =>
+    -- `Storage::open(.., overwrite = true)` truncates every non-empty store, then a core is created
+    (match w.get? name with
+     | none => some (w, "nocore")
+     | some h =>
+       match h.core.bind (·.secret) with
+       | none => some (w, "nocore")
+       | some sd =>
+         let tr : List SOp := [Store.tree, Store.data, Store.bitfield, Store.oplog].filterMap fun s =>
+           if (h.disk.get s).size > 0 then some (.trunc s 0) else none
+         let d0 := h.disk.applyAll tr
+         match openOn d0 (some (C.publicKey sd, some sd)) with
+         | .error e => some (w.set name { h with core := none }, s!"{failTxt e} j={jTxt tr}")
+         | .ok (c, j) =>
+           some (w.set name { core := some c, disk := d0.applyAll j, prevDisk := h.disk, prevExists := true,
+                              lastJournal := tr ++ j, writer := name }, s!"ok j={jTxt (tr ++ j)}"))
   | ["newr", name, writer] =>
     (match (w.get? writer).bind (·.core) with
      | none => some (w, "nocore")
